@@ -666,6 +666,11 @@ package block
 //@   ensures [emit-genuine-only] sendCount("headerInCh") <= 1 && (sendCount("headerInCh") == 1 ==> iu && iu.res0 && sent("headerInCh").Header == iu.arg1 && sent("headerInCh").DAHeight == daHeight)
 //@   ensures [emit-unseen] iu && iu.res0 && !m.headerCache.seen[hexstr(HashHdr(HdrOf(iu.arg1)))] && !ctxDone(ctx) ==> sendCount("headerInCh") == 1
 //@   ensures [genuine-is-handled] iu && iu.res0 ==> handled
+// C07 (eventually reported): a header blob is only ever swallowed (handled, not marked DA-included) because it
+// did not decode or because it is not the proposer's - never because of what the node has seen before.
+// A block that arrived over P2P first still has to be marked when its blob shows up on the DA layer.
+//@   observe fpr := call FromProto
+//@   ensures [mark-every-genuine] handled && !sdi ==> (fpr && fpr.res0 != nil) || (iu && !iu.res0)
 
 //@ func (m *Manager) handlePotentialData(ctx, bz, daHeight)
 //@   property C03 C07 C09
